@@ -130,7 +130,8 @@ def run():
         batches += [("gen4-full", [["-part", "gen", "-gen", "base,4,full,8,0,1"]]),
                     ("mid5", [["-part", "gen", "-gen", "mid,5,light,24,0,1"]]),
                     ("small5", [["-part", "gen", "-gen", "small,5,light,2,0,1"]]),
-                    ("small6", [["-part", "gen", "-gen", "small,6,light,24,0,1"]])]
+                    ("small6", [["-part", "gen", "-gen", "small,6,light,24,0,1"]]),
+                    ("ext", [["-part", "gen", "-gen", "esc,5,light,1,0,1;pfx,4,light,1,0,1;cmt,3,light,2,0,1;cmtb,4,light,2,0,1"]])]
     for part, arglists in batches:
         trace = os.path.join(vlib.scratch(), "parse-%s.ndjson" % part)
         with open(trace, "wb") as o:
@@ -167,6 +168,11 @@ def run():
                 "length L3 (thorough also: 14-class alphabet, length 5, 1 in 24; 9-class, length 5, 1 in 2, and length 6, 1 in 24; every text of "
                 "4 classes over the 20-class alphabet, 1 in 8 of them with the full product) x all cuts on a "
                 "fresh parser + every history whole and with one cut set; "
+                "texts outside the 20 classes: every text with a backslash escape over {dq bs letter digit blank (} up to length 4 "
+                "(letters spelled x u U n: the long escapes), every text with a quote prefix over {% ^ ~ @ + - letter digit "
+                "blank newline ( )} up to length 3, and a line / block comment inserted at every position of every host text "
+                "(14-class alphabet up to length 2, brackets only length 3) (thorough: 5, 4, 3/4); "
+                "histories also include an unfinished text left through the iterator protocol (break out of ParsingIter, read builtin); "
                 "files: every tests/*.zy x every history whole + seeded single cuts, pairs and multi-cuts x random history; "
                 "rand: seeded random class texts and corpus windows x random multi-cuts x random history "
                 "(quick: L1 = 3, L3 = 4; thorough: L1 = 3 (+ 1 in 8 of length 4), L3 = 4..5). A Go panic escaping the parser is recorded "
